@@ -95,6 +95,8 @@ func stores(args map[string]string) error {
 		}
 		w.Reset(ev0)
 		regionVer := map[int]int{}
+		learner := map[int]bool{}
+		keepRole := false // the next heartbeat reports the peer with the role it had (a move between stores)
 		heartbeat := func(i int, on uint64, n int) error {
 			// region n of store i lives on store `on`
 			regionVer[i*10+n]++
@@ -102,14 +104,20 @@ func stores(args map[string]string) error {
 			meta := &metapb.Region{Id: id, StartKey: []byte(fmt.Sprintf("b%05d-s%d-%d", bi, i, n)), EndKey: []byte(fmt.Sprintf("b%05d-s%d-%d~", bi, i, n)),
 				RegionEpoch: &metapb.RegionEpoch{Version: 1, ConfVer: uint64(regionVer[i*10+n])},
 				Peers:       []*metapb.Peer{{Id: id*10 + 1, StoreId: on}}}
-			if (i+n+regionVer[i*10+n])%3 == 0 {
+			if !keepRole {
+				learner[i*10+n] = (i+n+regionVer[i*10+n])%3 == 0
+			}
+			keepRole = false
+			if learner[i*10+n] {
 				// the peer on the store is a learner; the leader is a voter on the bootstrap store (store 1, outside the model)
 				meta.Peers = []*metapb.Peer{{Id: id*10 + 2, StoreId: 1}, {Id: id*10 + 1, StoreId: on, Role: metapb.PeerRole_Learner}}
 			}
 			r := core.RegionFromHeartbeat(&pdpb.RegionHeartbeatRequest{Region: meta, Leader: meta.Peers[0], Term: 1})
 			return pd.S.GetRaftCluster().VerifProcessRegionHeartbeat(r)
 		}
-		npeers := map[int]int{}
+		npeers := map[int]int{}     // regions ever created for a store
+		spare := map[int][][2]int{}
+		held := map[int][][2]int{} // the regions (home store, number) whose peer lives on a store now
 		retired := map[int]bool{} // ids of removed tombstones are never used again (store ids are allocated by PD)
 		wasTomb := map[int]bool{}
 		for si, st := range beh {
@@ -165,12 +173,32 @@ func stores(args map[string]string) error {
 			case "RemoveTombstones":
 				opErr = rc.RemoveTombStoneRecords()
 			case "PlacePeer":
-				npeers[id]++
-				opErr = heartbeat(id, sid(id), npeers[id])
+				x := [2]int{id, 0}
+				if k := len(spare[id]); k > 0 { // a region of this store that went to the bootstrap store comes back
+					x, spare[id] = spare[id][k-1], spare[id][:k-1]
+				} else {
+					npeers[id]++
+					x[1] = npeers[id]
+				}
+				held[id] = append(held[id], x)
+				opErr = heartbeat(x[0], sid(id), x[1])
 			case "DropPeer":
-				if npeers[id] > 0 {
-					opErr = heartbeat(id, 1, npeers[id]) // the peer moves to the bootstrap store
-					npeers[id]--
+				if k := len(held[id]); k > 0 {
+					x := held[id][k-1]
+					held[id] = held[id][:k-1]
+					spare[x[0]] = append(spare[x[0]], x)
+					opErr = heartbeat(x[0], 1, x[1]) // the peer moves to the bootstrap store
+				}
+			case "MovePeer":
+				// the newest region of store id moves to store `to`, the peer keeps its role (voter or learner)
+				to := st.Num(1)
+				ev["to"] = to
+				if k := len(held[id]); k > 0 && to != id {
+					x := held[id][k-1]
+					held[id] = held[id][:k-1]
+					held[to] = append(held[to], x)
+					keepRole = true
+					opErr = heartbeat(x[0], sid(to), x[1])
 				}
 			case "Heartbeat":
 				r, err := pd.S.StoreHeartbeat(ctx, &pdpb.StoreHeartbeatRequest{Header: pd.Header(), Stats: &pdpb.StoreStats{StoreId: sid(id), Capacity: 100, Available: 90}})
@@ -263,8 +291,10 @@ func randomBehaviours(seed int64, n, ops int) [][]cli.Step {
 				st = cli.Step{Action: "PutStore", Args: []interface{}{id, addrs[rng.Intn(3)], fail}}
 			case r < 32:
 				st = cli.Step{Action: "PlacePeer", Args: []interface{}{id}}
-			case r < 40:
+			case r < 37:
 				st = cli.Step{Action: "DropPeer", Args: []interface{}{id}}
+			case r < 40:
+				st = cli.Step{Action: "MovePeer", Args: []interface{}{id, float64(1 + rng.Intn(4))}}
 			case r < 54:
 				st = cli.Step{Action: "RemoveStore", Args: []interface{}{id, rng.Intn(4) == 0, fail}}
 			case r < 62:
